@@ -474,6 +474,9 @@ pub const CONDS: &[(Option<&[u16]>, Option<bool>)] = &[
     (Some(&[500, 404]), None),
     (Some(&[500, 200, 404, 404]), Some(true)),
     (Some(&[410, 301, 200]), None),
+    // long lists (above any small-size special case), not in ascending order
+    (Some(&[404, 410, 400, 401, 403, 500, 502, 503, 504, 429]), None),
+    (Some(&[503, 404, 410, 400, 401, 403, 500, 502, 200, 504, 429, 301]), Some(true)),
 ];
 pub const FLAGS: &[(Option<bool>, Option<bool>)] = &[(None, None), (Some(true), None), (None, Some(true)), (Some(false), Some(false)), (Some(true), Some(true))];
 pub const LOGS: &[Option<bool>] = &[None, Some(true), Some(false)];
